@@ -316,7 +316,7 @@ def drain(it, st, m, ctx):
     return outs
 
 
-_ITER_T = r'(std::slice::Iter<.*>|std::slice::IterMut<.*>|std::iter::\w+<.*>|rayon::\w+::\w+<.*>|std::vec::IntoIter<.*>|TryFold<.*>|std::collections::\w+::\w+<.*>|imbl::\w+::\w+<.*>|std::collections::btree_map::\w+<.*>|btree_map::\w+<.*>|hash_map::\w+<.*>)'
+_ITER_T = r'(.+)'
 
 
 @summary(r'^core::slice::<impl \[.*\]>::iter(_mut)?$|^<&(mut )?\[.*\] as IntoIterator>::into_iter$|^<&(mut )?Vec<.*> as IntoIterator>::into_iter$|^<\[.*\] as IntoParallelRefIterator<.*>>::par_iter$|^<Vec<.*> as IntoParallelRefIterator<.*>>::par_iter$|^<&\[.*\] as IntoParallelIterator>::into_par_iter$|^<&Vec<.*> as IntoParallelIterator>::into_par_iter$')
